@@ -20,13 +20,42 @@ from props import c07_hist as H
 ID = "C07"
 RULE = ("random expression trees (depth<=3 quick / <=4 thorough) over Laurent polynomials with support in [-4,6] and "
         "Fraction coefficients, law vectors on random triples (p,q,r,n,c,v), eq/hash pairs (permuted / rebuilt / "
-        "perturbed), Lagrange point sets (0..6 points, mostly distinct abscissae); non-trivial = the impl returned a "
-        "non-empty polynomial, a law vector, a comparison or interpolated values; distinct = distinct JSON case")
+        "perturbed), Lagrange point sets (0..6 points, mostly distinct abscissae); large parameters (powers / orders / "
+        "supports around 63-65, 127-129, 4095-4097, 16/17(33) interpolation points); HISTORIES (entry hist, "
+        "props/c07_hist.py) of 1..12 (long: 64..400) steps on a pool of Poly objects that are shared, assigned into "
+        "(p[k] = c, also c = 0, float / bool keys; p.zero = 0), hashed and re-used: shapes memo (op; assignment into an "
+        "operand or into the result; the same op again), twin (the same call with numerically equal int / bool / float / "
+        "complex / Fraction arguments, every order), objtwin (numerically equal Polys of different coefficient types, the "
+        "same op on each), lag (lagrange.func / lagrange.poly / resample on numerically equal abscissae or points of "
+        "different types and in 8 container kinds), hashed, src (the caller's own list / dict / OrderedDict given to "
+        "Poly(...) and changed afterwards), walk, long; non-trivial = the impl returned a non-empty polynomial, a law "
+        "vector, a comparison, interpolated values, or a history with a value-returning step; distinct = distinct JSON case")
 TRUSTED = [
     "hand-written Lean model ALV/Model/C07.lean of lazy_poly.Poly / lagrange (modelled, not verified: OrderedDict as "
     "association list, Python's Fraction arithmetic as a field, int*Fraction / Fraction**int as ofIntA / powInt)",
     "float / complex powers, Stream coefficients, __str__, roots (numpy) are outside the model",
     "hash: the model gives the canonical form of frozenset(items); CPython's hash() of it is trusted",
+    "histories: hand-written Lean model ALV/Model/C07Hist.lean of object identity, in-place assignment and the `_hash` "
+    "freeze (heap of objects, the caller's variables, the caller's containers; modelled, not verified); "
+    "`__setitem__` tests `getattr(self, '_hash', False)`, so an instance whose hash VALUE is 0 still accepts item "
+    "assignment: not modelled",
+    "histories: lagrange.func / lagrange.poly / resample are pure functions in the model — that a call does not depend "
+    "on the calls before it holds there by construction (no theorem); it is the tie that checks it on the real code: "
+    "every step of a history is compared with the model of that step taken alone",
+    "histories: `resample` — which samples are in the window and at which abscissa it is read is re-computed by the "
+    "harness (c07_hist.resample_queries; that bookkeeping is property C19's); C07 checks that every output is the value "
+    "of the interpolator through that window",
+    "histories: numerically equal arguments of other numeric types — the Lean side computes on the rational value; "
+    "float / complex answers are compared within 1e-9 (terms below 1e-12 pruned; once rounding residue makes a float "
+    "operand's number of terms differ from the model's, the later steps on inexact operands are not compared); that a "
+    "step with exact inputs (int / bool / Fraction and no Python int / int or int ** -n) answers in exact numbers is "
+    "checked on the Python types",
+    "histories: model-free oracles — the same step of the real code on pristine copies "
+    "Poly(OrderedDict(p.terms(sort=False)), zero=p.zero) of the operands' current contents; the contents of every "
+    "variable and of the caller's containers read again after every step; `is` between a result and every earlier object",
+    "histories: the first 250 histories of a run, and every history once one has failed, run in a process forked from a "
+    "zygote that has imported the library and run nothing (c07_hist.zygote_start); a case that fails only after the "
+    "earlier cases of the run is reported as a broken correspondence, not as the failing input",
 ]
 ASSUMPTIONS = [
     "exact regime only: Fraction coefficients / evaluation points and zero=Fraction(0) (the default float zero 0. "
@@ -35,10 +64,20 @@ ASSUMPTIONS = [
     "count); the property quantifies over exponents 0..bounded, the spec leaves that case undefined, the model reproduces it",
     "evaluation at v=0 of a Poly with negative powers returns the constant coefficient (x=0 shortcut); the property "
     "states the shortcut for polynomials only",
+    "`p ** n` on at least two terms with n <= 1, n != 0 returns the object p itself (reduce(mul, [] + [self])); the "
+    "model reproduces it (Props.C07.hist_alias_only_pow_self) but the property does not ask for it: histories never "
+    "assign into / hash such a result or its base afterwards, and a result that is a new object where the model returns "
+    "p is accepted, so that a refactor returning a copy raises no alarm; every OTHER result has to be a new object "
+    "(Poly instances are mutable until hashed, so a shared result would let a later assignment change another value)",
+    "histories use zero=Fraction(0) objects; the `zero` setter is exercised with values equal to zero (0, False, "
+    "Fraction(0)) only; lagrange.poly results (zero=0.) are observed and then changed by the harness (p[97] = 1), "
+    "they do not enter the pool",
 ]
 MANIFEST = {
-    "technique": "Lean 4 proof (association-list model interpreted into Mathlib's Laurent polynomial ring K[T;T⁻¹]) + "
-                 "differential tie on expression trees in the exact Fraction regime",
+    "technique": "Lean 4 proof (association-list model interpreted into Mathlib's Laurent polynomial ring K[T;T⁻¹]; heap "
+                 "model of mutable instances with invariant / freshness / frame theorems over all histories) + "
+                 "differential tie on expression trees in the exact Fraction regime and on histories of shared, mutated "
+                 "and re-used objects with arguments of every numeric type",
 }
 
 Z = F(0)
@@ -656,8 +695,9 @@ def compare(c, io, drv):
             io.update(io2)
             if not out2:
                 io["only_after_earlier_cases"] = True
-                return [(k, "only after the earlier cases of this run (agrees when run alone in a fresh process: the "
-                            "library keeps state somewhere): " + d) for k, d in out]
+                # not a self-contained witness: reported as a broken correspondence, never as the failing input
+                return [("model", "only after the earlier cases of this run (agrees when run alone in a fresh process: the "
+                                  "library keeps state somewhere): " + d) for _, d in out]
             return out2
     return out
 
